@@ -62,28 +62,37 @@ fn real_verdict(spec: &Spec, pk: &midnight_proofs::plonk::ProvingKey<F, pv::CS>,
     }
 }
 
-fn run(c: &Case) -> CaseResult {
-    let spec = expand(&c.knobs);
-    let honest = build_plan(&spec, c.wseed);
-    pv::mock(&spec, &honest).map_err(|e| Failure::new("mock-rejects-honest-plan", format!("{e}; spec={spec:?}")))?;
-    let (pk, vk) = pv::keygen(&spec).map_err(|e| Failure::new("keygen-fails", format!("{e}; spec={spec:?}")))?;
-    let sites = honest.fault_sites();
-    let inst_sites: Vec<(usize, usize)> = honest.instances.iter().enumerate().flat_map(|(c, col)| (0..col.len()).map(move |r| (c, r))).collect();
-    let mut verdict = Verdict::of(false, "no-fault");
-    let mut any_nt = false;
-    for fk in &c.faults {
-        let mut plan = honest.clone();
-        let mut rng = SplitMix(fk.rnd);
-        let classes: Vec<&'static str>;
-        let desc;
-        if fk.instance && !inst_sites.is_empty() {
-            let (col, row) = inst_sites[idx(fk.site, inst_sites.len())];
+enum Target {
+    Advice(usize, usize),
+    Instance(usize, usize),
+}
+
+struct World<'a> {
+    spec: &'a Spec,
+    honest: &'a Plan,
+    pk: &'a midnight_proofs::plonk::ProvingKey<F, pv::CS>,
+    vk: &'a midnight_proofs::plonk::VerifyingKey<F, pv::CS>,
+    sites: &'a [(usize, usize)],
+    inst_sites: &'a [(usize, usize)],
+    poseidon: bool,
+}
+
+/// One single-cell fault: the three verdicts must agree. Returns (label, the fault violates a constraint).
+fn judge_fault(w: &World, target: Target, kind: u8, rnd: u64) -> Result<(String, bool), Failure> {
+    let (spec, honest) = (w.spec, w.honest);
+    let mut plan = honest.clone();
+    let mut rng = SplitMix(rnd);
+    let classes: Vec<&'static str>;
+    let desc;
+    match target {
+        Target::Instance(col, row) => {
             let old = plan.instances[col][row];
-            let new = match fk.kind {
+            let pos = w.inst_sites.iter().position(|s| *s == (col, row)).unwrap_or(0);
+            let new = match kind {
                 0 => old + F::ONE,
                 1 => if old == F::ZERO { F::ONE } else { F::ZERO },
                 2 => {
-                    let (c2, r2) = inst_sites[(idx(fk.site, inst_sites.len()) + 1) % inst_sites.len()];
+                    let (c2, r2) = w.inst_sites[(pos + 1) % w.inst_sites.len()];
                     let o = plan.instances[c2][r2];
                     if o == old { old + F::ONE } else { o }
                 }
@@ -91,19 +100,16 @@ fn run(c: &Case) -> CaseResult {
             };
             plan.instances[col][row] = new;
             classes = honest.classes_of_instance(col, row);
-            desc = format!("instance[{col}][{row}] kind={}", fk.kind);
-        } else {
-            if sites.is_empty() {
-                continue;
-            }
-            let si = idx(fk.site, sites.len());
-            let (r, i) = sites[si];
+            desc = format!("instance[{col}][{row}] kind={kind}");
+        }
+        Target::Advice(r, i) => {
             let a = &honest.regions[r].assigns[i];
-            let delta = match fk.kind {
+            let si = w.sites.iter().position(|s| *s == (r, i)).unwrap_or(0);
+            let delta = match kind {
                 0 => F::ONE,
                 1 => if a.base == F::ZERO && a.chal.is_none() { F::ONE } else if a.chal.is_some() { F::ONE } else { -a.base },
                 2 => {
-                    let (r2, i2) = sites[(si + 1) % sites.len()];
+                    let (r2, i2) = w.sites[(si + 1) % w.sites.len()];
                     let o = honest.regions[r2].assigns[i2].base;
                     if o == a.base || a.chal.is_some() { F::ONE } else { o - a.base }
                 }
@@ -111,38 +117,150 @@ fn run(c: &Case) -> CaseResult {
             };
             plan.regions[r].assigns[i].delta = delta;
             classes = honest.classes_of(r, i);
-            desc = format!("advice region={r} assign={i} col={} offset={} kind={}", a.col, a.offset, fk.kind);
+            desc = format!("advice region={r} assign={i} col={} offset={} kind={kind}", a.col, a.offset);
         }
-        let violated = plan.violated(&spec);
-        let expect_reject = !violated.is_empty();
-        let mock = pv::mock(&spec, &plan);
-        let real = real_verdict(&spec, &pk, &vk, &plan, c.poseidon, fk.rnd ^ 0x77);
-        let cls = if classes.is_empty() { "none".to_string() } else { classes.join("+") };
-        if mock.is_ok() != real.is_ok() {
-            let which = if violated.is_empty() { "none".to_string() } else { violated.join("+") };
-            return Err(Failure::new(
-                format!("verdict-mismatch:mock={}:real={}:violated={which}", if mock.is_ok() { "accept" } else { "reject" }, if real.is_ok() { "accept" } else { "reject" }),
-                format!("fault {desc} (classes {cls}): MockProver {:?} but prover+verifier {:?}; spec={spec:?}", mock.as_ref().err(), real.as_ref().err()),
-            ));
-        }
-        if expect_reject && real.is_ok() {
-            return Err(Failure::new(
-                format!("violating-fault-accepted:{}", violated.join("+")),
-                format!("fault {desc} violates {violated:?} but the proof verifies (and MockProver accepts); spec={spec:?}"),
-            ));
-        }
-        if !expect_reject && real.is_err() {
-            return Err(Failure::new(
-                format!("benign-fault-rejected:{cls}"),
-                format!("fault {desc} (classes {cls}) violates no constraint by the harness evaluation but is rejected: mock {:?} real {:?}; spec={spec:?}", mock.err(), real.err()),
-            ));
-        }
-        let label = if expect_reject { format!("rejected:{}", violated.join("+")) } else if cls == "none" { "accepted:unused-cell".to_string() } else { format!("accepted:absorbed:{cls}") };
-        any_nt |= expect_reject;
+    }
+    let violated = plan.violated(spec);
+    let expect_reject = !violated.is_empty();
+    let mock = pv::mock(spec, &plan);
+    let real = real_verdict(spec, w.pk, w.vk, &plan, w.poseidon, rnd ^ 0x77);
+    let cls = if classes.is_empty() { "none".to_string() } else { classes.join("+") };
+    if mock.is_ok() != real.is_ok() {
+        let which = if violated.is_empty() { "none".to_string() } else { violated.join("+") };
+        return Err(Failure::new(
+            format!("verdict-mismatch:mock={}:real={}:violated={which}", if mock.is_ok() { "accept" } else { "reject" }, if real.is_ok() { "accept" } else { "reject" }),
+            format!("fault {desc} (classes {cls}): MockProver {:?} but prover+verifier {:?}; spec={spec:?}", mock.as_ref().err(), real.as_ref().err()),
+        ));
+    }
+    if expect_reject && real.is_ok() {
+        return Err(Failure::new(
+            format!("violating-fault-accepted:{}", violated.join("+")),
+            format!("fault {desc} violates {violated:?} but the proof verifies (and MockProver accepts); spec={spec:?}"),
+        ));
+    }
+    if !expect_reject && real.is_err() {
+        return Err(Failure::new(
+            format!("benign-fault-rejected:{cls}"),
+            format!("fault {desc} (classes {cls}) violates no constraint by the harness evaluation but is rejected: mock {:?} real {:?}; spec={spec:?}", mock.err(), real.err()),
+        ));
+    }
+    let label = if expect_reject { format!("rejected:{}", violated.join("+")) } else if cls == "none" { "accepted:unused-cell".to_string() } else { format!("accepted:absorbed:{cls}") };
+    Ok((label, expect_reject))
+}
+
+fn run(c: &Case) -> CaseResult {
+    let spec = expand(&c.knobs);
+    let honest = build_plan(&spec, c.wseed);
+    pv::mock(&spec, &honest).map_err(|e| Failure::new("mock-rejects-honest-plan", format!("{e}; spec={spec:?}")))?;
+    let (pk, vk) = pv::keygen(&spec).map_err(|e| Failure::new("keygen-fails", format!("{e}; spec={spec:?}")))?;
+    let sites = honest.fault_sites();
+    let inst_sites: Vec<(usize, usize)> = honest.instances.iter().enumerate().flat_map(|(c, col)| (0..col.len()).map(move |r| (c, r))).collect();
+    let w = World { spec: &spec, honest: &honest, pk: &pk, vk: &vk, sites: &sites, inst_sites: &inst_sites, poseidon: c.poseidon };
+    let mut verdict = Verdict::of(false, "no-fault");
+    let mut any_nt = false;
+    for fk in &c.faults {
+        let target = if fk.instance && !inst_sites.is_empty() {
+            let (col, row) = inst_sites[idx(fk.site, inst_sites.len())];
+            Target::Instance(col, row)
+        } else {
+            if sites.is_empty() {
+                continue;
+            }
+            let (r, i) = sites[idx(fk.site, sites.len())];
+            Target::Advice(r, i)
+        };
+        let (label, nt) = judge_fault(&w, target, fk.kind, fk.rnd)?;
+        any_nt |= nt;
         verdict = verdict.with(label);
     }
     verdict.nontrivial = any_nt;
     Ok(verdict)
+}
+
+// ---------------------------------------------------------------------------
+// copy-constraint classes: several cells copied from one source, equalities declared more
+// than once and either way round; every member of every class is faulted
+
+#[derive(Clone, Debug, Serialize, Deserialize)]
+struct CycleCase {
+    knobs: Knobs,
+    wseed: u64,
+    poseidon: bool,
+    /// which earlier op each op copies from (index scaled over the earlier ops)
+    links: Vec<u16>,
+    redundant: u8,
+}
+
+fn cycle_strategy() -> BoxedStrategy<CycleCase> {
+    (knobs_strategy(8), any::<u64>(), any::<bool>(), proptest::collection::vec(any::<u16>(), 8), 1u8..=255)
+        .prop_map(|(knobs, wseed, poseidon, links, redundant)| CycleCase { knobs, wseed, poseidon, links, redundant })
+        .boxed()
+}
+
+fn run_cycles(c: &CycleCase) -> CaseResult {
+    use vp_plonk::e1::{Check, Src};
+    let mut kn = c.knobs.clone();
+    kn.phases = 1;
+    kn.redundant = c.redundant;
+    let mut spec = expand(&kn);
+    // most ops copy the output of op 0 or 1 (one big class), some of another earlier op
+    for i in 1..spec.ops.len() {
+        let from = match c.links[i % c.links.len()] % 4 {
+            0 => idx(c.links[i % c.links.len()], i),
+            1 => 1.min(i - 1),
+            _ => 0,
+        };
+        if spec.ops[i].srcs.is_empty() {
+            spec.ops[i].srcs.push(Src::Copy { op: from });
+        } else {
+            spec.ops[i].srcs[0] = Src::Copy { op: from };
+        }
+    }
+    // cells that only the permutation argument constrains: filler cells copying earlier outputs
+    spec.filler_copies = true;
+    for (i, o) in spec.ops.iter_mut().enumerate() {
+        o.filler = 1 + (c.links[i % c.links.len()] as usize >> 4) % 2;
+    }
+    spec.k = spec.k.max(vp_plonk::e1::min_k(&spec));
+    let honest = build_plan(&spec, c.wseed);
+    if pv::mock(&spec, &honest).is_err() {
+        return Ok(Verdict::trivial("harness:rewired-spec-not-satisfiable"));
+    }
+    let (pk, vk) = pv::keygen(&spec).map_err(|e| Failure::new("keygen-fails", format!("{e}; spec={spec:?}")))?;
+    let sites = honest.fault_sites();
+    let inst_sites: Vec<(usize, usize)> = honest.instances.iter().enumerate().flat_map(|(c, col)| (0..col.len()).map(move |r| (c, r))).collect();
+    let w = World { spec: &spec, honest: &honest, pk: &pk, vk: &vk, sites: &sites, inst_sites: &inst_sites, poseidon: c.poseidon };
+    // members of copy classes
+    let mut members: Vec<(usize, usize)> = vec![];
+    let mut n_copies = 0;
+    let mut n_rev = 0;
+    for (ri, rp) in honest.regions.iter().enumerate() {
+        for ch in &rp.checks {
+            match ch {
+                Check::Copy { here, region, there } | Check::CopyRev { here, region, there } => {
+                    members.push((ri, *here));
+                    members.push((*region, *there));
+                    n_copies += 1;
+                    if matches!(ch, Check::CopyRev { .. }) {
+                        n_rev += 1;
+                    }
+                }
+                _ => {}
+            }
+        }
+    }
+    members.sort();
+    members.dedup();
+    members.retain(|m| sites.contains(m));
+    let mut verdict = Verdict::of(false, format!("copy-class-members:{}", match members.len() { 0 => "0", 1..=3 => "1-3", 4..=8 => "4-8", _ => "9+" }));
+    let mut rejected = 0;
+    for (n, (r, i)) in members.iter().enumerate() {
+        let (label, nt) = judge_fault(&w, Target::Advice(*r, *i), 0, c.wseed ^ n as u64)?;
+        rejected += nt as usize;
+        verdict = verdict.with(label);
+    }
+    verdict.nontrivial = rejected >= 3;
+    Ok(verdict.with(format!("equalities:{}", match n_copies { 0..=2 => "0-2", 3..=5 => "3-5", _ => "6+" })).with(if n_rev > 0 { "reversed-redundant-equality" } else { "no-reversed-equality" }))
 }
 
 fn main() {
@@ -158,6 +276,15 @@ fn main() {
             48,
             || strategy(p.tier.pick(10, 16), nfaults),
             run,
+        );
+        p.sub_cfg(
+            "e1.copy-classes",
+            "E1 specs rewired so that most operations copy the output of one or two earlier operations (large copy classes), with redundant equalities declared between members either way round; every member of every class is faulted (+1) in turn: real verdict == MockProver verdict == harness evaluation (each such fault breaks a copy constraint and must be rejected); non-trivial = at least three members",
+            p.tier.pick(160, 3000),
+            16,
+            24,
+            cycle_strategy,
+            run_cycles,
         );
     });
 }
